@@ -60,6 +60,28 @@ func CmpAlphabet() []Tok {
 	return []Tok{Term(Word("a")), Term(Int(5)), Term(Quoted("q")), Sym(":"), Sym(">"), Sym("<"), Sym("="), Sym("("), Sym(")"), Sym("~")}
 }
 
+// RangeFrames calls fn with token sequences built around one range: "a :" followed by
+// every five-token sequence over the range alphabet; "a : [ b TO" followed by every
+// sequence of length 1..4 over a small operator alphabet; and "a : [" + every sequence of
+// length 1..3 over that alphabet + "TO c ]". A complete range takes seven tokens, which
+// is more than the plain enumerations reach in the quick tier. Sharded like EnumSeqs.
+func RangeFrames(shard, nshards int, fn func([]Tok)) {
+	a, colon, open, to, closeB := Term(Word("a")), Sym(":"), Sym("["), Kw("TO", "TO"), Sym("]")
+	b, c := Term(Word("b")), Term(Word("c"))
+	EnumSeqs(RangeAlphabet(), 5, shard, nshards, func(seq []Tok) {
+		if len(seq) == 5 {
+			fn(append([]Tok{a, colon}, seq...))
+		}
+	})
+	inner := []Tok{c, Term(Int(5)), Sym("("), Sym(")"), Sym("]"), Sym("}"), Sym("~"), Kw("NOT", "NOT"), Sym("+"), Term(Wild("*"))}
+	EnumSeqs(inner, 4, shard, nshards, func(seq []Tok) {
+		fn(append([]Tok{a, colon, open, b, to}, seq...))
+	})
+	EnumSeqs(inner, 3, shard, nshards, func(seq []Tok) {
+		fn(append(append([]Tok{a, colon, open}, seq...), to, c, closeB))
+	})
+}
+
 // EnumSeqs calls fn with every token sequence over the alphabet of length 1..maxLen,
 // restricted to the sequences of this shard (round robin by running index). The
 // slice passed to fn is reused. It returns the number of sequences of all shards.
